@@ -312,9 +312,19 @@ def loop_run(task: tuple) -> dict:
                     break
     if "C10" in which:
         from mc.checks.c10 import snapf
+        from mc.checks.c10 import check_tree
         for t, before in emitted:
             if snapf(t) != before:
                 out["viol"].append(("C10", dict(base, kind="emitted_solution_modified_later", tree=str(t)[:80], sig=f"loop:{name}:emitted_solution_modified_later")))
+                break
+            why = check_tree(t, "emitted")
+            if why:
+                out["viol"].append(("C10", dict(base, kind="emitted_solution_bookkeeping_inconsistent", why=why[:200], tree=str(t)[:80], sig=f"loop:{name}:emitted:{why.split(':')[1][:40] if ':' in why else why[:40]}")))
+                break
+        for t in pop:
+            why = check_tree(t, "population")
+            if why:
+                out["viol"].append(("C10", dict(base, kind="population_bookkeeping_inconsistent", why=why[:200], tree=str(t)[:80], sig=f"loop:{name}:population:{why.split(':')[1][:40] if ':' in why else why[:40]}")))
                 break
     return out
 
@@ -376,6 +386,15 @@ def loop_explore(ctx: Ctx, names: list, which: set, bound: int, cap: int) -> dic
 
 
 # ----------------------------------------------------------------------------- engine B: operator closure
+def _node_ids(t: Any) -> set:
+    out = {id(t)}
+    for c in t._children:
+        out |= _node_ids(c)
+    for c in t._sources:
+        out |= _node_ids(c)
+    return out
+
+
 def closure_work(task: tuple) -> dict:
     """apply one operator to one tree (identified by the choice history that builds it) under
     every resolution; returns new trees as (builder history) + judgements"""
@@ -452,8 +471,18 @@ def closure_work(task: tuple) -> dict:
             continue
         basecase = {"spec": name, "op": op, "builder": repr(builder)[:300], "choices": choices[:40]}
         if "C10" in which:
+            from mc.checks.c10 import check_tree
             if snapf(base) != base_before or (part is not None and snapf(part) != part_before):
                 out["viol"].append(("C10", dict(basecase, kind="operator_modified_its_input", sig=f"closure:{op}:operator_modified_its_input")))
+            # bookkeeping (sizes, hashes, parent links) of the inputs and of the result, and no node object shared between them
+            for label, t in (("input", base), ("partner", part), ("result", res)):
+                why = check_tree(t, label) if t is not None else None
+                if why:
+                    out["viol"].append(("C10", dict(basecase, kind="bookkeeping_inconsistent_after_operator", why=why[:200], sig=f"closure:{op}:{label}:{why.split(':')[1][:40] if ':' in why else why[:40]}")))
+                    break
+            shared = _node_ids(res) & (_node_ids(base) | (_node_ids(part) if part is not None else set()))
+            if shared and res is not base and res is not part:
+                out["viol"].append(("C10", dict(basecase, kind="result_shares_nodes_with_input", shared=len(shared), sig=f"closure:{op}:result_shares_nodes_with_input")))
         s = snap(res)
         if s in seen:
             continue
@@ -462,6 +491,26 @@ def closure_work(task: tuple) -> dict:
             why = judge_derivation(e, res)
             if why:
                 out["viol"].append(("C01", dict(basecase, kind="operator_produced_non_derivation", why=why, tree=str(res)[:80], sig=f"closure:{name}:{op}:{why[:40]}")))
+        if "C02" in which:
+            # the acceptance gate: whatever a fresh evaluator yields for this tree is what the loop would emit
+            reset_constraint_caches(spec)
+            ev2 = Evaluator(g, spec.constraints, 1.0, 5, 1.0)
+            accepted = []
+            try:
+                gen2 = ev2.evaluate_individual(res)
+                while True:
+                    accepted.append(next(gen2))
+            except StopIteration:
+                pass
+            except Exception:
+                accepted = []
+            out["accepted"] = out.get("accepted", 0) + len(accepted)
+            for t in accepted:
+                why = judge_solution(e, t)
+                if why:
+                    out["viol"].append(("C02", dict(basecase, kind="evaluator_accepts_operator_result_violating_constraint", why=why, tree=str(t)[:80],
+                                                   sig=f"closure:{name}:{op}:{why[:50]}")))
+                    break
         if "C16" in which and e.get("gens"):
             mine: list = []
             judge_generators(e, res, get_log(spec), mine)
